@@ -144,6 +144,7 @@ def families(tier):
                  if not ("rx == 1" in p and any(("x2 == %d" % k) in p for k in range(4)))]
         parts = refine(parts, ["x2 == 2", "x2 == 3", "x2 == 6"], "x3", (0, 1, NOPP))
         parts = refine(parts, ["x2 == 4"], "x3", (4, NOPP))
+        parts = [q for p in parts for q in ([p + ["a2 == %d" % v] for v in (-1, 0, 1)] if ("x2 == 4" in p and "x3 == 4" in p) else [p])]
     else:
         pre += ["t1 >= 4", "c3 == %d" % NOPC, "b3 == 0", "size <= 3", "b1 <= 1", "a2 <= 1", "b2 <= 1",
                 "x3 == %d or (x2 <= 1 and 2 <= x3 <= 3) or (2 <= x2 <= 3 and x3 <= 1) or (x2 == 6 and x3 <= 1) or (x2 == 4 and x3 == 4)" % NOPP, "a3 <= 1", "t == 0 or t >= 4"]
